@@ -95,10 +95,10 @@ package graphql
 
 //@ func completePlannedValueCatchingError
 //@   trusted
-//@   assigns class:executionContext.Errors, class:FormattedError, class:M|*graphql.Object|*graphql.selectionPlan, class:graphql.selectionPlan, class:graphql.fieldPlan, class:M|string|int, class:M|string|bool, class:E|*graphql.fieldPlan, class:E|*ast.Field, class:M|string|interface, class:E|interface
+//@   assigns class:executionContext.Errors, class:FormattedError, class:M|*graphql.Object|*graphql.selectionPlan, class:graphql.selectionPlan, class:graphql.fieldPlan, class:M|string|int, class:M|string|bool, class:E|*graphql.fieldPlan, class:E|*ast.Field, class:M|string|interface, class:E|interface, class:graphql.fragmentGate, class:E|graphql.fragmentSpreadEdge, class:M|string|*graphql.fragmentGate, class:E|func
 
 //@ func resolvePlannedField
-//@   assigns class:executionContext.Errors, class:FormattedError, class:M|*graphql.Object|*graphql.selectionPlan, class:graphql.selectionPlan, class:graphql.fieldPlan, class:M|string|int, class:M|string|bool, class:E|*graphql.fieldPlan, class:E|*ast.Field, class:M|string|interface, class:E|interface
+//@   assigns class:executionContext.Errors, class:FormattedError, class:M|*graphql.Object|*graphql.selectionPlan, class:graphql.selectionPlan, class:graphql.fieldPlan, class:M|string|int, class:M|string|bool, class:E|*graphql.fieldPlan, class:E|*ast.Field, class:M|string|interface, class:E|interface, class:graphql.fragmentGate, class:E|graphql.fragmentSpreadEdge, class:M|string|*graphql.fragmentGate, class:E|func
 //@   props C04 C20 C06
 //@   nosafety
 //@   requires eCtx != nil && fp != nil && fp.fieldDef != nil
@@ -121,7 +121,7 @@ package graphql
 //@   functional
 
 //@ func executePlannedSelection
-//@   assigns class:executionContext.Errors, class:FormattedError, class:M|*graphql.Object|*graphql.selectionPlan, class:graphql.selectionPlan, class:graphql.fieldPlan, class:M|string|int, class:M|string|bool, class:E|*graphql.fieldPlan, class:E|*ast.Field, class:M|string|interface, class:E|interface
+//@   assigns class:executionContext.Errors, class:FormattedError, class:M|*graphql.Object|*graphql.selectionPlan, class:graphql.selectionPlan, class:graphql.fieldPlan, class:M|string|int, class:M|string|bool, class:E|*graphql.fieldPlan, class:E|*ast.Field, class:M|string|interface, class:E|interface, class:graphql.fragmentGate, class:E|graphql.fragmentSpreadEdge, class:M|string|*graphql.fragmentGate, class:E|func
 //@   props C20 C13 C01
 //@   nosafety
 //@   requires eCtx != nil
@@ -179,7 +179,7 @@ package graphql
 //@   assigns nothing
 
 //@ func completePlannedListValue
-//@   assigns class:executionContext.Errors, class:FormattedError, class:M|*graphql.Object|*graphql.selectionPlan, class:graphql.selectionPlan, class:graphql.fieldPlan, class:M|string|int, class:M|string|bool, class:E|*graphql.fieldPlan, class:E|*ast.Field, class:M|string|interface, class:E|interface
+//@   assigns class:executionContext.Errors, class:FormattedError, class:M|*graphql.Object|*graphql.selectionPlan, class:graphql.selectionPlan, class:graphql.fieldPlan, class:M|string|int, class:M|string|bool, class:E|*graphql.fieldPlan, class:E|*ast.Field, class:M|string|interface, class:E|interface, class:graphql.fragmentGate, class:E|graphql.fragmentSpreadEdge, class:M|string|*graphql.fragmentGate, class:E|func
 //@   props C20 C18 C04
 //@   nosafety
 //@   requires eCtx != nil && returnType != nil
@@ -188,7 +188,7 @@ package graphql
 //@   loop 1 invariant fresh(completedResults)
 
 //@ func completePlannedObjectValue
-//@   assigns class:executionContext.Errors, class:FormattedError, class:M|*graphql.Object|*graphql.selectionPlan, class:graphql.selectionPlan, class:graphql.fieldPlan, class:M|string|int, class:M|string|bool, class:E|*graphql.fieldPlan, class:E|*ast.Field, class:M|string|interface, class:E|interface
+//@   assigns class:executionContext.Errors, class:FormattedError, class:M|*graphql.Object|*graphql.selectionPlan, class:graphql.selectionPlan, class:graphql.fieldPlan, class:M|string|int, class:M|string|bool, class:E|*graphql.fieldPlan, class:E|*ast.Field, class:M|string|interface, class:E|interface, class:graphql.fragmentGate, class:E|graphql.fragmentSpreadEdge, class:M|string|*graphql.fragmentGate, class:E|func
 //@   props C20 C04
 //@   nosafety
 //@   requires eCtx != nil && returnType != nil
@@ -196,7 +196,7 @@ package graphql
 //@   at[C20] call executePlannedSelection: assert arg0 == eCtx && arg1 == fp.sub && arg2 == result && arg3 == returnType && arg4 == path
 
 //@ func completePlannedAbstractValue
-//@   assigns class:executionContext.Errors, class:FormattedError, class:M|*graphql.Object|*graphql.selectionPlan, class:graphql.selectionPlan, class:graphql.fieldPlan, class:M|string|int, class:M|string|bool, class:E|*graphql.fieldPlan, class:E|*ast.Field, class:M|string|interface, class:E|interface
+//@   assigns class:executionContext.Errors, class:FormattedError, class:M|*graphql.Object|*graphql.selectionPlan, class:graphql.selectionPlan, class:graphql.fieldPlan, class:M|string|int, class:M|string|bool, class:E|*graphql.fieldPlan, class:E|*ast.Field, class:M|string|interface, class:E|interface, class:graphql.fragmentGate, class:E|graphql.fragmentSpreadEdge, class:M|string|*graphql.fragmentGate, class:E|func
 //@   props C20 C04 C01
 //@   nosafety
 //@   requires eCtx != nil && fp != nil && (eCtx.plan == nil || !held(&eCtx.plan.abstractMu))
@@ -564,16 +564,16 @@ package graphql
 
 //@ func Plan.planMergedSelectionsForType
 //@   opt maypanic=true
-//@   assigns class:graphql.selectionPlan, class:graphql.fieldPlan, class:M|string|int, class:M|string|bool, class:E|*graphql.fieldPlan, class:E|*ast.Field, class:M|string|interface, class:E|interface
+//@   assigns class:graphql.selectionPlan, class:graphql.fieldPlan, class:graphql.fragmentGate, class:E|graphql.fragmentSpreadEdge, class:M|string|*graphql.fragmentGate, class:M|string|int, class:M|string|bool, class:E|*graphql.fieldPlan, class:E|*ast.Field, class:E|func
 
 //@ func Plan.abstractAlternative
 //@   props C01 C07 C09 C19
 //@   nosafety
-//@   assigns class:M|*graphql.Object|*graphql.selectionPlan, class:graphql.selectionPlan, class:graphql.fieldPlan, class:M|string|int, class:M|string|bool, class:E|*graphql.fieldPlan, class:E|*ast.Field, class:M|string|interface, class:E|interface
+//@   assigns class:M|*graphql.Object|*graphql.selectionPlan, class:graphql.selectionPlan, class:graphql.fieldPlan, class:M|string|int, class:M|string|bool, class:E|*graphql.fieldPlan, class:E|*ast.Field, class:M|string|interface, class:E|interface, class:graphql.fragmentGate, class:E|graphql.fragmentSpreadEdge, class:M|string|*graphql.fragmentGate, class:E|func
 //@   requires p != nil && fp != nil && !held(&p.abstractMu)
 //@   ensures !held(&p.abstractMu)
 //@   panics !held(&p.abstractMu)
-//@   at[C01] call planMergedSelectionsForType: assert arg1 == runtimeType && arg2 == fp.fieldASTs
+//@   at[C01] call planMergedSelectionsForType: assert arg1 == runtimeType && arg2 == fp.fieldASTs && arg3 == fp.astPredicates
 //@   at[C01,C19] return: assert calls("planMergedSelectionsForType") == 1 || old(fp.abstractAlternatives != nil && has(fp.abstractAlternatives, runtimeType))
 //@   at[C19] return: assert old(fp.abstractAlternatives != nil && has(fp.abstractAlternatives, runtimeType)) ==> calls("planMergedSelectionsForType") == 0
 //@   guarded[C07] fieldPlan.abstractAlternatives, M|*graphql.Object|*graphql.selectionPlan by &p.abstractMu
@@ -633,16 +633,70 @@ package graphql
 //@ func Plan.collectInto
 //@   props C01 C13 C20
 //@   nosafety
-//@   assigns class:graphql.selectionPlan, class:graphql.fieldPlan, class:M|string|int, class:M|string|bool, class:E|*graphql.fieldPlan, class:E|*ast.Field, class:M|string|interface, class:E|interface
+//@   assigns class:graphql.selectionPlan, class:graphql.fieldPlan, class:graphql.fragmentGate, class:E|graphql.fragmentSpreadEdge, class:M|string|*graphql.fragmentGate, class:M|string|int, class:M|string|bool, class:E|*graphql.fieldPlan, class:E|*ast.Field, class:E|func
 //@   requires p != nil
 //@   requires sp != nil
 //@   requires selectionSet != nil
 //@   requires keyed != nil
 //@   at[C01,C13] call getFieldDef: assert !has(keyed, responseKey)
-//@   at[C01,C13] call append#2: assert has(keyed, responseKey) && keyed[responseKey] == len(arg0)
-//@   at[C13] call append#2: assert arg0 == sp.fields
+//@   at[C01,C13] call append#3: assert has(keyed, responseKey) && keyed[responseKey] == len(arg0)
+//@   at[C13] call append#3: assert arg0 == sp.fields
 //@   at[C01,C20] call append#1: assert has(keyed, responseKey) && arg0 == sp.fields[keyed[responseKey]].fieldASTs
 //@   at[C01] call collectInto: assert arg0 == p && arg1 == parentType && arg3 == visitedFragmentNames && arg4 == sp && arg5 == keyed
+// C01 "a response key is present iff at least one of its occurrences is included": an occurrence
+// merged into an existing key widens the key's predicate with exactly its own inclusion predicate
+// (container gate AND enclosing conditions AND own directives), and records that predicate next to
+// its AST so that only included occurrences contribute their sub-selections.
+//@   at[C01] call andPredicates#2: assert arg0 == parentPred && arg1 == pred
+//@   at[C01] call andPredicates#1: assert arg0 == containerPred && arg1 == lastresult("andPredicates")
+//@   at[C01] call andPredicates#4: assert arg0 == parentPred && arg1 == pred
+//@   at[C01] call andPredicates#3: assert arg0 == containerPred && arg1 == lastresult("andPredicates")
+//@   at[C01] call append#2: assert arg0 == sp.fields[keyed[responseKey]].astPredicates && arg1 == occurrencePred && occurrencePred == lastresult("andPredicates")
+//@   at[C01] call orPredicates: assert arg0 == sp.fields[keyed[responseKey]].skipPredicate && arg1 == occurrencePred
+//@   loop 1 ensures[C01] typeis(iSelection, "*ast.Field") && calls("getFieldDef") == atloop(1, calls("getFieldDef")) && calls("andPredicates") > atloop(1, calls("andPredicates")) ==> calls("orPredicates") == atloop(1, calls("orPredicates")) + 1 && calls("append") == atloop(1, calls("append")) + 2
+// enclosing conditions are threaded through inline fragments and (as the gate) through named fragments
+//@   at[C01] call andPredicates#5: assert arg0 == parentPred && arg1 == pred
+//@   at[C01] call collectInto#1: assert arg6 == lastresult("andPredicates") && arg7 == container
+//@   at[C01] call andPredicates#6: assert arg0 == parentPred && arg1 == pred
+//@   at[C01] call collectInto#2: assert arg6 == nil && (arg7 == nil <==> (container == nil && spreadPred == nil))
+//@   at[C01] call add: assert arg1 == container && arg2 == spreadPred
+// a fragment that was already collected under a gate is widened by every later spread
+//@   loop 1 ensures[C01] typeis(iSelection, "*ast.FragmentSpread") && calls("collectInto") == atloop(1, calls("collectInto")) && calls("andPredicates") > atloop(1, calls("andPredicates")) && as(iSelection, "*ast.FragmentSpread").Name != nil && atloop(1, visitedFragmentNames[as(iSelection, "*ast.FragmentSpread").Name.Value]) && atloop(1, sp.fragmentGates[as(iSelection, "*ast.FragmentSpread").Name.Value] != nil) ==> calls("add") == atloop(1, calls("add")) + 1
+
+// The combinators: nil is the constant-true predicate.
+//@ func andPredicates
+//@   props C01
+//@   assigns nothing
+//@   ensures a == nil ==> result == b
+//@   ensures a != nil && b == nil ==> result == a
+//@   ensures a != nil && b != nil ==> result != nil
+//@ func orPredicates
+//@   props C01
+//@   assigns nothing
+//@   ensures (a == nil || b == nil) ==> result == nil
+//@   ensures a != nil && b != nil ==> result != nil
+//@ func andPredicates$1
+//@   props C01
+//@   nosafety
+//@   ensures calls("a") == 1
+//@   ensures !lastresult("a") ==> !result && calls("b") == 0
+//@   ensures lastresult("a") ==> calls("b") == 1 && result == lastresult("b")
+//@ func orPredicates$1
+//@   props C01
+//@   nosafety
+//@   ensures calls("a") == 1
+//@   ensures lastresult("a") ==> result && calls("b") == 0
+//@   ensures !lastresult("a") ==> calls("b") == 1 && result == lastresult("b")
+
+// The gate of a conditionally spread fragment: an unconditional spread at the selection's own
+// level makes it constant; otherwise every spread is recorded.
+//@ func fragmentGate.add
+//@   props C01
+//@   requires g != nil
+//@   assigns class:graphql.fragmentGate, class:E|graphql.fragmentSpreadEdge
+//@   ensures old(g.always) ==> g.always && len(g.spreads) == old(len(g.spreads))
+//@   ensures !old(g.always) && from == nil && cond == nil ==> g.always
+//@   ensures !old(g.always) && !(from == nil && cond == nil) ==> !g.always && len(g.spreads) == old(len(g.spreads)) + 1 && g.spreads[old(len(g.spreads))].from == from && g.spreads[old(len(g.spreads))].cond == cond
 
 //@ func Plan.planMergedFieldChildren
 //@   trusted
@@ -654,6 +708,9 @@ package graphql
 //@   requires p != nil
 //@   loop 1 ensures visited == atloop(1, visited) && keyed == atloop(1, keyed)
 //@   at[C01] call collectInto: assert arg1 == parentType && arg3 == visited && arg4 == sp && arg5 == keyed
+// "the sub-selection executed for a merged field is the union of the sub-selections of exactly its
+// included occurrences": occurrence i is collected under occurrence i's own predicate
+//@   at[C01] call collectInto: assert arg2 == fieldASTs[i].SelectionSet && arg7 == nil && (i < len(astPredicates) ==> arg6 == astPredicates[i])
 
 // ---- mutations force deferred values depth-first; queries breadth-first (C13) ----
 
